@@ -203,18 +203,25 @@ impl ProtocolRequestBuilder for crate::Request {
             vec![]
         };
 
+        // The request keeps its headers in a hash map, whose iteration order changes from one
+        // instance (and one process) to the next. Emit them ordered by name - the sort is
+        // stable, so the values of one name keep their order - so that the same request is
+        // always the same sequence of headers on the wire.
+        let mut headers: Vec<HttpHeader> = self
+            .iter()
+            .flat_map(|(name, values)| {
+                values.iter().map(|value| HttpHeader {
+                    name: name.to_string(),
+                    value: value.to_string(),
+                })
+            })
+            .collect();
+        headers.sort_by(|a, b| a.name.cmp(&b.name));
+
         Ok(HttpRequest {
             method: self.method().to_string(),
             url: self.url().to_string(),
-            headers: self
-                .iter()
-                .flat_map(|(name, values)| {
-                    values.iter().map(|value| HttpHeader {
-                        name: name.to_string(),
-                        value: value.to_string(),
-                    })
-                })
-                .collect(),
+            headers,
             body,
         })
     }
